@@ -77,9 +77,9 @@ func (l *lst) WhenThrottled() { l.n++ }
 
 type Step struct {
 	A      string `json:"a"`
-	D      int    `json:"d"`  // ms
-	Ok     *bool  `json:"ok"`  // base start result if it is reached
-	Sok    *bool  `json:"sok"` // base stop result if it is reached
+	D      int    `json:"d"`    // ms
+	Ok     *bool  `json:"ok"`   // base start result if it is reached
+	Sok    *bool  `json:"sok"`  // base stop result if it is reached
 	Disk   *bool  `json:"disk"` // proc mode: result of the storage layer's free-disk-space check on this frame
 	Motion bool   `json:"motion"`
 }
